@@ -199,7 +199,7 @@ class Models(object):
         m = re.match(r'^std::__map_it<(.*)>::(__map_it|operator\S*|\w+)(<.*>)?\((.*)\)( const)?$', d)
         if m:
             return mapit_method(m.group(2))
-        m = re.match(r'^std::pair<std::string( const)?, (.*)>::pair\((.*)\)$', d)
+        m = re.match(r'^std::pair<std::string( const)?, (.*)>::pair(?:<.*>)?\((.*)\)$', d)
         if m:
             return pair_ctor(m.group(2), m.group(3))
         m = re.match(r'^std::__vec_it<(.*)>::(__vec_it|operator\S*|\w+)(<.*>)?\((.*)\)( const)?$', d)
@@ -600,6 +600,22 @@ def string_method(name, sig):
 
     def compare(ex, args, inst):
         a = get_str(ex, args[0]).v
+        parts_ = [x.strip() for x in sig.split(',')]
+        if len(parts_) >= 3 and parts_[0].startswith('unsigned long'):
+            # compare(pos, n, str): substring [pos, pos+n) of *this against str
+            pos, n = args[1], args[2]
+            b = ex.cstring(args[3]) if parts_[2].startswith('char const*') else get_str(ex, args[3]).v
+            if len(parts_) > 3:
+                raise ExecError('std::string::compare(%s) is not modelled by Engine A' % sig)
+            if isinstance(a, str) and isinstance(b, str) and isinstance(pos, int) and isinstance(n, int):
+                if pos > len(a):
+                    ex.st.event('oob', 'string-compare', pos, len(a), ex.cur_fn)
+                sub = a[pos:pos + n]
+                return (sub > b) - (sub < b)
+            # symbolic operands: an uninterpreted predicate 'the substring equals b' of the operands (both outcomes are explored)
+            tt = lambda v_: v_ if isinstance(v_, T) else (tm.mk('str', (), v_, 'S') if isinstance(v_, str) else tm.iconst(v_))
+            r = tm.cmp('eq', tm.uf('substr_eq', tt(a), tt(pos), tt(n), tt(b), sort='I'), tm.iconst(1))
+            return tm.ite(r, tm.iconst(0), tm.iconst(1))
         b = ex.cstring(args[1]) if sig.startswith('char const*') else get_str(ex, args[1]).v
         if isinstance(a, str) and isinstance(b, str):
             return (a > b) - (a < b)
@@ -1185,7 +1201,19 @@ def map_method(vty, name, sig):
 def pair_ctor(vty, sig):
     """std::pair<const std::string, V>: layout {string at 0, V at 8} (the layout of a map entry)"""
     vsize = elem_size(vty)
-    parts = [x.strip() for x in sig.split(',')] if sig.strip() else []
+    parts, depth, cur = [], 0, ''
+    for ch in sig:                       # split on top-level commas only (std::pair<A, B> const& is one parameter)
+        if ch in '<(':
+            depth += 1
+        elif ch in '>)':
+            depth -= 1
+        if ch == ',' and depth == 0:
+            parts.append(cur.strip())
+            cur = ''
+        else:
+            cur += ch
+    if cur.strip():
+        parts.append(cur.strip())
 
     def f(ex, args, inst):
         p = args[0]
